@@ -102,6 +102,23 @@ pub fn catalogue(w: &World, tier: &str, seed: u64, reps: usize) -> Vec<FaultCase
                     "fashare ver" => {
                         for r in pick(&idx, thorough) {
                             entries.push((What::Tree(tm(vec![r, 0], MutOp::XorU8(1))), "ashare-check-bit-mac-untouched".into()));
+                            // non-boolean check bytes (must be refused whatever their parity)
+                            for val in [2u8, 3, 0xfe, 0xff] {
+                                entries.push((What::Tree(tm(vec![r, 0], MutOp::SetU8(val))), format!("ashare-check-byte-{val:#x}")));
+                                let plan = FaultPlan {
+                                    corrupt: c,
+                                    actions: vec![
+                                        FaultAction { target: Target { from: c, to: Some(m.to), label: "fashare ver".into(), k: Some(m.k) }, what: What::Tree(tm(vec![r, 0], MutOp::SetU8(val))) },
+                                        FaultAction { target: Target { from: m.to, to: Some(c), label: "fashare di_bi".into(), k: Some(m.k) }, what: What::Tree(tm(vec![r], MutOp::XorDeltaOf(m.to))) },
+                                    ],
+                                    crash: None,
+                                    seed: s ^ r as u64 ^ ((val as u64) << 20),
+                                };
+                                let mut fc = FaultCase::new(ci, plan, format!("ashare-check-byte-{val:#x}:cheater-continues"), "fashare ver".into());
+                                fc.expect_abort = vec![m.to];
+                                fc.needs_probes = true;
+                                extra.push(fc);
+                            }
                             // the same lie by a cheater that does not stop at its own consistency check:
                             // what the victim opens towards the cheater is patched back on the way in
                             for rr in 0..reps {
